@@ -115,11 +115,23 @@ class SimFS:
         self.stats = stats
         self.opened = []
 
+    def _canonical(self, name):
+        """A tree may legitimately normalise or absolutise a path before opening it: resolve it back to the name it was given."""
+        if name in self.files:
+            return name
+        cands = {n: n for n in self.files}
+        for n in self.files:
+            cands[os.path.normpath(n)] = n
+            cands[os.path.abspath(n)] = n
+            cands[os.path.realpath(n)] = n
+        return cands.get(name) or cands.get(os.path.normpath(name)) or name
+
     def open(self, file, mode='r', buffering=-1, encoding=None, errors=None, newline=None, closefd=True, opener=None):
         name = os.fspath(file)
         if isinstance(name, bytes):
             name = name.decode()
         self.opened.append(name)
+        name = self._canonical(name)
         if any(c in mode for c in 'wxa+'):
             raise core.HarnessError('tool under test opened %r for writing (mode %r)' % (name, mode))
         f = self.fault
